@@ -27,7 +27,9 @@ def r2_states():      # partial injective successor maps over the B's (chains an
 
 
 def r3_states():      # each L -> unlinked | (a, d)
-    opts = [None] + [(a, d) for a in range(NA) for d in range(ND)]
+    # each link instance: unlinked, linked to both sides, or HALF-FORMED (one side only: the state between
+    # the two relates of "relate .. using", or after a one-sided unrelate)
+    opts = [None] + [(a, d) for a in range(NA) for d in range(ND)] + [(a, None) for a in range(NA)] + [(None, d) for d in range(ND)]
     return list(itertools.product(opts, repeat=NL))
 
 
@@ -111,10 +113,12 @@ def build(state):
             for l, ad in enumerate(st):
                 if ad is not None:
                     a, d = ad
-                    xtuml.relate(P['L'][l], P['A'][a], 3)
-                    xtuml.relate(P['D'][d], P['L'][l], 3)
-                    ref.link(P['L'][l], P['A'][a], 'L', 'A', 'R3', '', '')
-                    ref.link(P['L'][l], P['D'][d], 'L', 'D', 'R3', '', '')
+                    if a is not None:
+                        xtuml.relate(P['L'][l], P['A'][a], 3)
+                        ref.link(P['L'][l], P['A'][a], 'L', 'A', 'R3', '', '')
+                    if d is not None:
+                        xtuml.relate(P['D'][d], P['L'][l], 3)
+                        ref.link(P['L'][l], P['D'][d], 'L', 'D', 'R3', '', '')
         elif u == 'r4':
             x, y = st
             if x >= 0:
